@@ -26,7 +26,7 @@ type c01Case struct {
 }
 
 func genC01(t *rapid.T) *c01Case {
-	maxEv := pt.Scale(60, 300)
+	maxEv := pt.Scale(60, 700) // thorough: enough events to cross the default dictionary limit of 501 distinct values
 	ds := gen.GenDataset(t, gen.DatasetOpts{MaxEvents: maxEv, MaxCols: 7, NullPct: 5})
 	return &c01Case{DS: ds, Layout: gen.GenLayout(t, len(ds.Events))}
 }
